@@ -39,6 +39,8 @@ structure Input where
   hashSupported : Bool     -- blob: the signature algorithm's hash has a digest algorithm
   required : List (String × String)   -- user metadata the caller requires
   reader : String          -- blob: how the reader delivers the bytes (concretisation only: must not matter)
+  viaRegistry : Bool       -- oci: through notation.Verify and a repository listing this one signature
+                           -- (concretisation only: the same requirements reach the verifier)
   plugin : Bool            -- the signature names an installed verification plugin that owns the identity check
                            -- and approves (concretisation only: the payload is checked all the same)
   deriving Repr, FromJson, ToJson
